@@ -110,6 +110,9 @@ def plan(tier: str) -> typing.List[Run]:
             runs.append(Run(c, False, True, "unknown-group", st, tls))
             runs.append(Run(c, True, True, "unknown-user", st, tls))
             runs.append(Run(c, True, True, "unknown-group", st, tls))
+        # a value of usechroot that is no boolean must abort start-up, not silently mean 'no chroot'
+        runs.append(Run(True, False, False, "unknown-usechroot-value", st, tls))
+        runs.append(Run(True, True, True, "unknown-usechroot-value", st, tls))
     return runs
 
 
@@ -336,7 +339,12 @@ def execute(env: Env, r: Run, tag: str, token: str, kind: str = "unrelated") -> 
     os.chmod(wd, 0o755)
     root = os.path.join(wd, "root")
     make_root(root, token)
-    over: typing.Dict[str, typing.Optional[str]] = {"usechroot": "yes" if r.chroot else "no"}
+    # every spelling the configuration parser documents for a boolean
+    yes = {"unrelated": "yes", "prefix-sibling": "on", "inside-root": "true", "root-itself": "1"}[kind]
+    no = ("no", "off", "false", "0")[sum(map(ord, tag)) % 4]
+    over: typing.Dict[str, typing.Optional[str]] = {"usechroot": yes if r.chroot else no}
+    if r.fault == "unknown-usechroot-value":
+        over["usechroot"] = ("enabled", "y", "si")[sum(map(ord, tag)) % 3]
     if r.uid:
         over["setuid"] = "nosuchuser_vf" if r.fault == "unknown-user" else USER
     if r.gid:
@@ -672,6 +680,8 @@ def execute_inproc(env: Env, r: Run, tag: str, token: str) -> Obs:
     root = os.path.join(wd, "root")
     make_root(root, token)
     over: typing.Dict[str, typing.Optional[str]] = {"usechroot": "yes" if r.chroot else "no"}
+    if r.fault == "unknown-usechroot-value":
+        over["usechroot"] = "enabled"
     if r.uid:
         over["setuid"] = "nosuchuser_vf" if r.fault == "unknown-user" else USER
     if r.gid:
